@@ -24,7 +24,8 @@ Theorem C17_skeleton_tie :
   run_prog = run_skeleton /\ outer_prog = outer_skeleton /\ init_prog = init_skeleton /\
   await_prog = await_skeleton /\ interrupt_prog = interrupt_skeleton /\
   send_signal_prog = send_signal_skeleton /\ terminate_prog = terminate_skeleton /\
-  kill_prog = kill_skeleton /\ logging_prog = logging_skeleton /\ exited_prog = exited_fields.
+  kill_prog = kill_skeleton /\ logging_prog = logging_skeleton /\ exited_prog = exited_fields /\
+  call_prog = call_skeleton.
 Proof. exact tie_all. Qed.
 
 (** starting returns a handle (event.set() happens, with `process` assigned, before
@@ -47,9 +48,8 @@ Theorem C17_yields_refuted_killed_while_logging :
   exists w, ans w = ARaise EBrokenPool /\ await_handle w = Hangs HListener.
 Proof. exact yields_refuted_killed_while_logging. Qed.
 
-(** exactly those situations: the added hypothesis of the partial theorems below is
-    [stuck w = None], i.e. the future answers (the function did not raise StopIteration) and:
-    no log collection, or the worker did not die inside a log write *)
+(** exactly that situation: the added hypothesis of the partial theorems below is
+    [stuck w = None], i.e. no log collection, or the worker did not die inside a log write *)
 Theorem C17_hang_iff : forall w h, await_handle w = Hangs h <-> stuck w = Some h.
 Proof. exact hang_iff. Qed.
 
@@ -57,27 +57,27 @@ Theorem C17_yields_partial : forall w, stuck w = None -> exists x, await_handle 
 Proof. exact yields_partial. Qed.
 
 Theorem C17_yields_without_logging : forall w,
-  collect_logging w = false -> ans w <> ANever -> exists x, await_handle w = Yields x.
+  collect_logging w = false -> exists x, await_handle w = Yields x.
 Proof. exact yields_without_logging. Qed.
 
-(** second refutation (known finding `hang:future-never-completes`): a function that raises
-    StopIteration; asyncio refuses to put it into the Future that wraps the executor's future
-    (TypeError inside the _chain_future callback), so `ret = await future` never completes --
-    even without log collection *)
-Theorem C17_yields_refuted_stopiteration :
-  exists w, collect_logging w = false /\ consistent (ExnOdd OStopIteration 1, None) (ans w) /\
-            await_handle w = Hangs HFuture.
-Proof. exact yields_refuted_stopiteration. Qed.
-
-(** however much the worker logged: if it was not killed inside a log write the handle yields *)
+(** however much the worker logged and whatever it raised: if it was not killed inside a log
+    write the handle yields *)
 Theorem C17_yields_when_not_killed_logging : forall w,
-  died_in_log_write w = false -> ans w <> ANever -> exists x, await_handle w = Yields x.
+  died_in_log_write w = false -> exists x, await_handle w = Yields x.
 Proof. exact yields_when_not_killed_logging. Qed.
 
+(** the exception the function raised is yielded EXACTLY, whatever its class: it travels as data
+    in the result of the wrapper `_call`, not through Future.set_exception (which refuses
+    StopIteration and converts concurrent.futures.CancelledError) -- repaired findings
+    hang:future-never-completes, wrong-exception-class:cf_cancelled, exception-lost:unloadable_exc *)
+Theorem C17_exception_yielded_exactly : forall w e,
+  ans w = AData e -> stuck w = None ->
+  exists c t, await_handle w = Yields (mkExited None (Some e) c t).
+Proof. exact exception_yielded_exactly. Qed.
+
 (** value xor exception xor neither, matching the behaviour:
-    return -> that value; raise -> that exception (any class that travels faithfully; the
-    three classes that do not are [ExnOdd], each a known finding); unpicklable return value or
-    unpicklable exception -> a pickling error as `raised` (CPython sends it back as an exception); SystemExit ->
+    return -> that value; raise -> that exception (any class); a return value or an exception
+    that cannot be pickled or rebuilt -> the pickling error as `raised`; SystemExit ->
     `raised` = that SystemExit; hard exit, SIGTERM, SIGKILL, SIGINT before the function
     runs -> neither; SIGINT while the function runs -> `raised` = KeyboardInterrupt;
     a signal racing completion -> one of: the natural outcome, the signal's outcome, neither *)
@@ -87,9 +87,6 @@ Theorem C17_outcome_shape : forall w sc x,
      match sc with
      | (Ret v, None) => [(Some v, None)]
      | (Exn e, None) => [(None, Some (EWorker e))]
-     | (ExnOdd OStopIteration _, None) => [(None, None)]      (* vacuous: never yields, see above *)
-     | (ExnOdd OCfCancelled e, None) => [(None, Some (EAioCancelled e))]   (* known finding: class changed *)
-     | (ExnOdd OUnloadable _, None) => [(None, None)]          (* known finding: exception lost *)
      | (Unpicklable, None) => [(None, Some EPickle)]
      | (SysExit n, None) => [(None, Some (ESysExit n))]
      | (HardExit _, None) => [(None, None)]
@@ -99,7 +96,6 @@ Theorem C17_outcome_shape : forall w sc x,
      | (b, Some (s, Racing)) =>
          [ match b with
            | Ret v => (Some v, None) | Exn e => (None, Some (EWorker e)) | Unpicklable => (None, Some EPickle)
-           | ExnOdd OCfCancelled e => (None, Some (EAioCancelled e)) | ExnOdd _ _ => (None, None)
            | SysExit n => (None, Some (ESysExit n)) | HardExit _ => (None, None) end;
            match s with SInt => (None, Some EKeyboardInt) | _ => (None, None) end;
            (None, None) ]
@@ -121,8 +117,8 @@ Theorem C17_cleanup_prefix : forall w,
     = run_trace w ++ rest.
 Proof. exact cleanup_prefix. Qed.
 
-(** ... the worker process is joined (exit code set) in every world where the future answers ... *)
-Theorem C17_process_always_joined : forall w, ans w <> ANever -> joined (run_trace w) = true.
+(** ... the worker process is joined (exit code set) in EVERY world ... *)
+Theorem C17_process_always_joined : forall w, joined (run_trace w) = true.
 Proof. exact process_always_joined. Qed.
 
 (** ... and, outside the stuck situation, on every path: the executor is shut down (wait=True, in
@@ -137,11 +133,9 @@ Theorem C17_cleanup_partial : forall w, stuck w = None ->
   joined (run_trace w) = true.
 Proof. exact cleanup_partial. Qed.
 
-(** in the stuck situations: (killed while logging) the process is joined but the listener task is
-    left pending; (StopIteration) the `_run` task never reaches the shutdown: executor left open *)
+(** in the stuck situation the process is joined but the listener task is left pending *)
 Theorem C17_cleanup_refuted :
-  (exists w, joined (run_trace w) = true /\ helpers_left (run_trace w) = 1%nat) /\
-  (exists w, collect_logging w = false /\ joined (run_trace w) = false /\ helpers_left (run_trace w) = 1%nat).
+  exists w, joined (run_trace w) = true /\ helpers_left (run_trace w) = 1%nat.
 Proof. exact cleanup_refuted. Qed.
 
 (** any number of awaiters, at any time: every further await of the handle (started before
@@ -174,8 +168,8 @@ Example C17_example_nonvacuous :
   stuck (mkWorld true (AValue 7) false) = None /\
   await_handle (mkWorld true (AValue 7) false) = Yields (mkExited (Some 7) None 6 10) /\
   await_handle (mkWorld true (ARaise EBrokenPool) false) = Yields (mkExited None None 6 10) /\
-  await_handle (mkWorld false (ARaise (EWorker 3)) true) = Yields (mkExited None (Some (EWorker 3)) 4 6) /\
-  run_trace (mkWorld true (ARaise EKeyboardInt) false) =
+  await_handle (mkWorld false (AData (EWorker 3)) true) = Yields (mkExited None (Some (EWorker 3)) 4 6) /\
+  run_trace (mkWorld true (AData EKeyboardInt) false) =
     [VListenerStarted; VInitializerWrapped; VExecutorCreated; VSubmitted; VProcessKnown; VEventSet;
      VFutureAwaited; VExecutorShutdown; VListenerSentinel; VListenerAwaited] /\
   run_trace (mkWorld true (ARaise EBrokenPool) true) =
@@ -191,8 +185,8 @@ Print Assumptions C17_yields_refuted_killed_while_logging.
 Print Assumptions C17_hang_iff.
 Print Assumptions C17_yields_partial.
 Print Assumptions C17_yields_without_logging.
-Print Assumptions C17_yields_refuted_stopiteration.
 Print Assumptions C17_yields_when_not_killed_logging.
+Print Assumptions C17_exception_yielded_exactly.
 Print Assumptions C17_outcome_shape.
 Print Assumptions C17_value_xor_exception.
 Print Assumptions C17_cleanup_prefix.
